@@ -50,18 +50,32 @@ REST = ('running', 'gitting')
 HARD_CAP = 12
 
 
+# The transitions the property statement names ("start, load, introspect, run; submit and back; archive and back
+# to where it came from; update, archive, refresh"), written down here once; pl/state.dot must say the same.
+STATEMENT = {
+    ('starting', 'starting_trigger', 'loading'),  # start / boot, load
+    ('loading', 'contemplation_trigger', 'contemplation'),  # introspect
+    ('contemplation', 'running_trigger', 'running'),  # run
+    ('running', 'gitting_trigger', 'gitting'),  # submit
+    ('gitting', 'running_trigger', 'running'),  # ... and back
+    ('running', 'archiving_trigger', 'archiving'),  # archive
+    ('archiving', 'running_trigger', 'running'),  # ... and back to where it came from
+    ('running', 'update_trigger', 'updating'),  # update
+    ('updating', 'archiving_trigger', 'archiving'),  # archive
+    ('archiving', 'updating_trigger', 'updating'),  # ... and back to where it came from
+    ('updating', 'loading_trigger', 'loading'),  # refresh
+}
+
+
 def documented():
     edges = K.parse_dot()
-    table = set()
-    for e in edges:
-        # the drawn arrow and the source/dest attributes are the same documentation; use the attributes the
-        # machine is documented to load and remember a disagreement as a documentation defect
-        table.add((e['source'], e['trigger'], e['dest']))
-    triggers = sorted({e['trigger'] for e in edges})
+    table = {(e['source'], e['trigger'], e['dest']) for e in edges}
+    triggers = sorted({e['trigger'] for e in edges if e['trigger']} | {t for _, t, _ in STATEMENT})
     return edges, table, triggers
 
 
-EDGES, TABLE, TRIGGERS = documented()
+EDGES, DOT_TABLE, TRIGGERS = documented()
+TABLE = STATEMENT & DOT_TABLE  # a move must be documented by both; a difference between the two is reported
 ALLOWED = collections.defaultdict(set)
 for _s, _t, _d in TABLE:
     ALLOWED[_s].add(_t)
@@ -71,7 +85,7 @@ def new_rig(mode):
     return K.Rig(doctest=mode['doctest'], archive_mode=mode['archive'], reopen_result=mode['reopen'])
 
 
-def guarded(rig, event, index):
+def guarded(rig, event, first_trigger):
     '''could a real caller (with its guard) produce this event now?'''
     kind, _, arg = event.partition(':')
     if kind != 'T':
@@ -79,7 +93,7 @@ def guarded(rig, event, index):
     f = rig.fsm
     active = f.state == 'running' and f.transitioning == K.Status.active and not rig.pool.steps
     if arg == 'starting_trigger':
-        return index == 0
+        return first_trigger
     if arg == 'gitting_trigger':
         return active
     if arg == 'running_trigger':
@@ -121,6 +135,7 @@ def apply(rig, event):
     obs['after'] = rig.snapshot()
     obs['effects_after'] = rig.effects()
     obs['moves'] = rig.moves[obs['moves_from'] :]
+    obs['all_moves'] = rig.moves
     obs['active'] = rig.fsm.is_pipeline_active()
     return obs
 
@@ -133,16 +148,27 @@ def check(obs, accepted_before):
     s0, t0 = before[0], before[1]
     changed = before != after or obs['effects_before'] != obs['effects_after'] or bool(obs['moves'])
     accepted = accepted_before
-    for src, trig, dst in obs['moves']:
+    for n, (src, trig, dst) in enumerate(obs['moves']):
         if (src, trig, dst) not in TABLE:
             out.append(
                 (
                     'C10.edge',
                     f'edge:{src}-{trig}->{dst}',
                     {'move': [src, trig, dst], 'during': obs['event']},
-                    'a documented (source, trigger, dest) edge of state.dot',
+                    'a documented (source, trigger, dest) edge',
                 )
             )
+        if src == 'archiving':
+            came = [m for m in obs['all_moves'][: obs['moves_from'] + n] if m[2] == 'archiving']
+            if came and came[-1][0] != dst:
+                out.append(
+                    (
+                        'C10.edge',
+                        f'archive-return:from-{came[-1][0]}-back-to-{dst}',
+                        {'entered_archiving_from': came[-1][0], 'left_to': dst, 'trigger': trig},
+                        'archiving goes back to where it came from',
+                    )
+                )
     if kind == 'T':
         if arg not in ALLOWED[s0]:
             if not isinstance(obs['exc'], K.MachineError):
@@ -216,7 +242,7 @@ def run_history(mode, history, check_all):
         kind, _, arg = event.partition(':')
         if kind == 'C' and int(arg) >= len(rig.pool.steps):
             return rig, found, None, accepted, is_guarded  # not executable (only possible in replay of bad input)
-        is_guarded = is_guarded and guarded(rig, event, i)
+        is_guarded = is_guarded and guarded(rig, event, not any(e[0] == 'T' for e in history[:i]))
         last = apply(rig, event)
         vio, accepted = check(last, accepted)
         if check_all or i == len(history) - 1:
@@ -317,7 +343,7 @@ def random_walks(rng, count, max_len, deadline, coll, stats):
             comps = [e for e in events if e.startswith('C:')]
             # half of the time let the background make progress, otherwise any event
             event = rng.choice(comps) if comps and rng.random() < 0.5 else rng.choice(events)
-            is_guarded = is_guarded and guarded(rig, event, i)
+            is_guarded = is_guarded and guarded(rig, event, not any(e[0] == 'T' for e in history))
             history.append(event)
             obs = apply(rig, event)
             vio, accepted = check(obs, accepted)
@@ -331,6 +357,20 @@ def random_walks(rng, count, max_len, deadline, coll, stats):
 
 def documentation_checks(coll):
     '''the diagram itself: arrows agree with the source/dest attributes, one edge per (source, trigger)'''
+    for edge in sorted(DOT_TABLE ^ STATEMENT, key=str):
+        where = 'only-in-state.dot' if edge in DOT_TABLE else 'missing-from-state.dot'
+        coll.add(
+            MODES[0],
+            [],
+            -1,
+            (
+                'C10.edge',
+                f'dot:{where}:{edge[0]}-{edge[1]}->{edge[2]}',
+                {'edge': list(edge), 'where': where},
+                'pl/state.dot has exactly the transitions the property statement names',
+            ),
+            True,
+        )
     seen = {}
     for e in EDGES:
         if e['arrow'] != (e['source'], e['dest']):
@@ -373,7 +413,8 @@ def run(tier: str, seed: int) -> dict:
     samples = []
     documentation_checks(coll)
     closed_all = True
-    # the stated bound first; then continue each mode to its fixpoint (every reachable configuration expanded)
+    # each mode is continued to its fixpoint (every reachable configuration expanded), which contains the stated
+    # bound when it is reached within HARD_CAP trigger events
     for mode in MODES:
         closed = explore(mode, HARD_CAP, deadline, coll, stats, samples)
         closed_all = closed_all and closed
